@@ -106,6 +106,8 @@ static Verdict run_c17(const Case &c)
   }
   else if (in_k == "missing")
     in_path = "does-not-exist.dat";
+  else if (in_k == "longname")
+    in_path = std::string((size_t)c.geti("pathlen", 300) < 256 ? 300 : (size_t)c.geti("pathlen", 300), 'n');
   else if (in_k == "dir")
     in_path = ".";
   else if (in_k == "subdir")
@@ -116,7 +118,7 @@ static Verdict run_c17(const Case &c)
   else if (in_k == "devnull")
     in_path = "/dev/null";
   bool odd_input = in_k == "dir" || in_k == "subdir" || in_k == "devnull";
-  if (in_k != "none" && in_k != "missing" && !odd_input)
+  if (in_k != "none" && in_k != "missing" && in_k != "longname" && !odd_input)
     write_file(dir + "/in" + (in_is_wenc ? ".wenc" : ".dat"), std::string(in_bytes.begin(), in_bytes.end()));
   std::string out_path;
   if (out_k == "ok")
@@ -190,6 +192,12 @@ static Verdict run_c17(const Case &c)
       argv.push_back(a);
   if (!dangling.empty())
     argv.push_back(dangling);
+  if (argv.empty())
+  {
+    // no argument at all starts the interactive prompt, which the property excludes
+    v.classes.push_back("empty_argv_outside_domain");
+    return v;
+  }
   // ---- model of the documented behaviour ----
   auto inrange = [](const std::string &s, int hi) {
     if (s.empty())
@@ -211,6 +219,15 @@ static Verdict run_c17(const Case &c)
     perr("option without its value");
   if (in_k == "missing")
     perr("input file cannot be opened");
+  if ((in_k == "longplain" || in_k == "longwenc") && in_path.size() >= 4096)
+    perr("input path longer than PATH_MAX cannot be opened");
+  if (out_k == "long" && out_path.size() >= 4096)
+    perr("output path longer than PATH_MAX cannot be created");
+  if (in_k == "longname")
+    perr("input file name longer than NAME_MAX cannot be opened");
+  // default output name = input path + ".wenc": may cross PATH_MAX although the input itself opens
+  if (modes == "e" && out_k == "none" && (in_k == "longplain" || in_k == "longwenc") && in_path.size() < 4096 && in_path.size() + 5 >= 4096)
+    perr("default output name longer than PATH_MAX cannot be created");
   if (out_k == "baddir")
     perr("output file cannot be created");
   if (key_k != "none" && !key_valid)
@@ -325,7 +342,7 @@ static Verdict run_c17(const Case &c)
   if (ok != expect_ok)
     return bad(std::string("exit status ") + std::to_string(r.code) + " but the operation " + (expect_ok ? "should have succeeded" : "did not succeed"));
   // input file untouched
-  if (in_k != "none" && in_k != "missing")
+  if (in_k != "none" && in_k != "missing" && in_k != "longname")
   {
     std::string now = read_file(dir + "/in" + (in_is_wenc ? ".wenc" : ".dat"));
     if (fnv64(now.data(), now.size()) != in_hash || now.size() != in_bytes.size())
@@ -348,7 +365,7 @@ static Verdict run_c17(const Case &c)
   if (mode == 'e')
   {
     std::string op = out_k == "none" ? in_path + ".wenc" : out_path;
-    std::string of = read_file(dir + "/" + op);
+    std::string of = read_rel(dir, op);
     bytes ob(of.begin(), of.end());
     if (ob.empty())
       return bad("encryption reported success but " + (op.size() > 40 ? std::string("the output file") : op) + " is missing or empty");
@@ -391,7 +408,7 @@ static Verdict run_c17(const Case &c)
   }
   else if (mode == 'd')
   {
-    std::string of = read_file(dir + "/" + out_path);
+    std::string of = read_rel(dir, out_path);
     if (bytes(of.begin(), of.end()) != P)
       return bad("decryption reported success but the output differs from the plaintext");
     v.classes.push_back("decrypt_output_verified");
@@ -433,6 +450,8 @@ static Case gen_c17()
       in = "none";
     if (g::coin(6))
       in = g::oneof<const char *>({"dir", "subdir", "devnull"});
+    else if (g::coin(4))
+      in = "longname";
     c.set("input", in);
   }
   {
@@ -480,7 +499,7 @@ static Case gen_c17()
   c.seti("file_cmode", g::range(0, 5));
   c.seti("file_hmode", g::range(0, 3));
   c.seti("tamper", g::range(0, 4));
-  c.seti("pathlen", g::coin(50) ? g::oneof<long>({123, 124, 130, 140, 200, 300, 1000, 3000}) : g::coin(60) ? g::range(245, 265) : g::oneof<long>({127, 128, 129, 510, 511, 512, 513, 1023, 1024, 1025, 2047, 2048, 4000}));
+  c.seti("pathlen", g::coin(50) ? g::oneof<long>({123, 124, 130, 140, 200, 300, 1000, 3000}) : g::coin(60) ? g::range(245, 265) : g::oneof<long>({127, 128, 129, 510, 511, 512, 513, 1023, 1024, 1025, 2047, 2048, 4000, 4080, 4090, 4095, 4096, 4097, 4100, 4200, 5000, 8192, 20000, 100000}));
   c.seti("asan", g::coin(25) ? 1 : 0);
   c.seti("followup", g::coin(40) ? 1 : 0);
   return c;
@@ -535,6 +554,16 @@ static void fixed_c17(Ctx &ctx)
     mk({{"input", "longplain"}, {"pathlen", pl}});
     mk({{"modes", "d"}, {"input", "longwenc"}, {"key", "right"}, {"output", "long"}, {"pathlen", pl}});
   }
+  for (const char *pl : {"4080", "4090", "4095", "4096", "4097", "4110", "4130", "4200", "5000", "8192", "20000", "100000"})
+  {
+    mk({{"input", "longplain"}, {"pathlen", pl}});
+    mk({{"input", "longplain"}, {"pathlen", pl}, {"output", "ok"}});
+    mk({{"modes", "v"}, {"input", "longwenc"}, {"key", "right"}, {"pathlen", pl}});
+    mk({{"input", "plain"}, {"output", "long"}, {"pathlen", pl}});
+    mk({{"modes", "d"}, {"input", "wenc"}, {"key", "right"}, {"output", "long"}, {"pathlen", pl}});
+  }
+  for (const char *pl : {"256", "300", "1000", "5000"})
+    mk({{"input", "longname"}, {"pathlen", pl}});
   for (int cm = 0; cm < 5; cm++)
     for (int hm = 0; hm < 3; hm++)
     {
